@@ -144,6 +144,12 @@ fn spawn_child(args: &[String], env: &Env) -> Result<String, String> {
     for (k, v) in env {
         c.env(k, v);
     }
+    // every child also carries a variable whose value is not UTF-8 and that nothing refers to: a function that reads
+    // the variables it is asked about never notices it (one that walks the whole environment does)
+    {
+        use std::os::unix::ffi::OsStrExt;
+        c.env("RV_RAW_BYTES", std::ffi::OsStr::from_bytes(b"r\xff\xfew"));
+    }
     let out = c.output().map_err(|e| e.to_string())?;
     if !out.status.success() {
         return Err(format!("child failed: {:?}", out.status));
